@@ -25,4 +25,8 @@ def reaperDefaultSize (batchsize i remainder : Int) : Int :=
 -- cropping.py : Crop.is_ready_to_reap
 def isReady (numResults numSown : Int) : Bool := decide (numResults > 0) && decide (numResults = numSown)
 
+-- cropping.py : calc_clean_up_default_res (clean_up is None -> not allow_incomplete)
+def cleanUpDefault (cleanUpIsNone cleanUp allowIncomplete : Bool) : Bool :=
+  if cleanUpIsNone then !allowIncomplete else cleanUp
+
 end Gen.Default
